@@ -554,7 +554,12 @@ class Assembler:
             c_ens = self.clauses('ensures', subst(cl.get('ensures')), '                ', fnname)
             if c_req or c_ens:
                 txt += '\n' + c_req + c_ens + '            '
-            # existing `-> T` on the closure is kept if no ret given
+            # existing `-> T` on the closure is kept if no ret given; with a named result it is replaced by `-> (name: T)`
+            if cl.get('ret') and s.is_p(kb + 1, '->'):
+                kq = kb + 1
+                while not s.is_p(kq, '{'):
+                    kq += 1
+                ed.delete(s.t[kb + 1][1], s.t[kq][1])
             ed.insert(s.t[kb][2], txt, order=-1)
             self.fired.add('3:closure-splice')
             # Verus wants a braced body after a closure contract: wrap an expression body in { }
